@@ -144,5 +144,16 @@ theorem arg_agree {o : Str} {co : List Nat} (ho : Rep o co) (a : Arg) (d : List 
     simp only [Arg.den, Option.some.injEq] at hd
     subst hd
     exact ⟨⟨[c], 0, 1⟩, rfl, by simp, by simp [Spec.seg]⟩
+  | ptr off n =>
+    simp only [Arg.den] at hd
+    split at hd
+    · cases hd
+    · rename_i hn
+      cases hd
+      refine ⟨⟨o.buf, off, n⟩, by simp [Arg.src, ho.1.size, hn], ?_, ?_⟩
+      · simp [ho.1.len]; omega
+      · have := seg_buf ho off n (by omega)
+        rw [Nat.min_eq_left (by omega)] at this
+        exact this
 
 end Tetl.C04
